@@ -93,6 +93,8 @@ type Gen struct {
 	// Skip(structType, field) == true: the field is left alone (not filled, not poked, not compared)
 	Skip func(t reflect.Type, f reflect.StructField) bool
 	Unit string
+	// PokeNoInsert: maps Poke must not add an entry to (maps with an invariant between key and value)
+	PokeNoInsert func(t reflect.Type) bool
 	// PokeSkip: fields Poke must leave alone
 	PokeSkip func(t reflect.Type, f reflect.StructField) bool
 }
@@ -466,6 +468,9 @@ func (g *Gen) Poke(v reflect.Value, seen map[uintptr]bool, depth int) {
 			v.SetMapIndex(k, c)
 		}
 		// a new entry: visible to everybody sharing the map
+		if g.PokeNoInsert != nil && g.PokeNoInsert(v.Type()) {
+			return
+		}
 		k := reflect.New(v.Type().Key()).Elem()
 		g.mapKey(k, 90+len(keys), CTypical)
 		e := reflect.New(v.Type().Elem()).Elem()
